@@ -83,8 +83,11 @@ def audit_tokens():
 def props_decls(pid):
     """(theorem names, number of examples) declared in Props/Cnn.lean."""
     path = os.path.join(LEAN, "Strophe", "Props", pid + ".lean")
-    with open(path, encoding="utf-8") as fh:
-        text = strip_lean_comments(fh.read())
+    try:
+        with open(path, encoding="utf-8") as fh:
+            text = strip_lean_comments(fh.read())
+    except OSError:
+        return [], 0
     ns = re.search(r"^namespace\s+(\S+)", text, re.M)
     ns = ns.group(1) if ns else ""
     thms = []
@@ -425,7 +428,7 @@ def main():
     c_results = l_results = None
     if hdrv:
         c_results = run_side([hdrv, prop.ENGINE], cases, stateful, timeout)
-    if ok_drv:
+    if ok_drv and not os.environ.get("VERIF_IMPL_ONLY"):
         l_results = run_side([build.drv_path(), prop.ENGINE], cases, stateful, timeout)
     else:
         proof_problems.append("model driver does not build: " + log_drv[-800:])
